@@ -49,7 +49,7 @@ pub struct Case {
 pub const CODE: [u8; 16] = [0x23, 0x2B, 0x24, 0xE5, 0xE1, 0x7C, 0x3C, 0x00, 0x04, 0x0C, 0x00, 0x00, 0x00, 0x00, 0x18, 0xF0];
 
 fn fill(seed: u64, bank: usize) -> Vec<u8> {
-    let mut x = (seed ^ ((bank as u64 + 11) * 0x9E3779B97F4A7C15)) | 1;
+    let mut x = (seed ^ ((bank as u64 + 11).wrapping_mul(0x9E3779B97F4A7C15))) | 1;
     let mut v = vec![0u8; mach::PAGE];
     for chunk in v.chunks_mut(8) {
         x ^= x << 13;
